@@ -29,6 +29,11 @@ pub enum Pos {
     ParamInstance,
     /// the same as a SEQUENCE component
     ParamComponent,
+    /// `T ::= INTEGER (vlo..vhi)` with the bounds given by value references, next to an
+    /// ENUMERATED and an INTEGER with named numbers that use the same identifiers
+    ValueRefBound,
+    /// the same as a SEQUENCE component
+    ValueRefComponent,
     /// union / serial combination (random)
     Combo,
     /// the same as a SEQUENCE component (a different width-selection routine)
@@ -107,6 +112,14 @@ fn case_text(i: usize, c: &Case) -> String {
         Pos::Element | Pos::ComboElement => format!("T{i} ::= SEQUENCE OF INTEGER {k}"),
         Pos::RefUnconstrained => format!("T{i} ::= Unc {k}"),
         Pos::RefWide => format!("T{i} ::= Wide {k}"),
+        Pos::ValueRefBound | Pos::ValueRefComponent => {
+            let (lo, hi) = (c.lo.unwrap(), c.hi.unwrap());
+            let ty = format!("INTEGER (vlo{i}..vhi{i})");
+            format!(
+                "vlo{i} INTEGER ::= {lo}\nvhi{i} INTEGER ::= {hi}\nAa-Decoy{i} ::= ENUMERATED {{ vlo{i}, vhi{i} }}\nZz-Decoy{i} ::= INTEGER {{ vhi{i}(3), vlo{i}(2) }}\n{}",
+                if c.pos == Pos::ValueRefBound { format!("T{i} ::= {ty}") } else { format!("T{i} ::= SEQUENCE {{ f {ty} }}") }
+            )
+        }
         Pos::ParamInstance => format!("T{i} ::= Bounded {{ {}, {} }}", c.lo.unwrap(), c.hi.unwrap()),
         Pos::ParamComponent => format!("T{i} ::= SEQUENCE {{ f Bounded {{ {}, {} }} }}", c.lo.unwrap(), c.hi.unwrap()),
         Pos::Value => format!("T{i} ::= INTEGER {k}\nv{i} T{i} ::= {}", c.x.unwrap()),
@@ -174,7 +187,7 @@ fn observe(m: &RModule, i: usize, c: &Case) -> Result<Obs, String> {
     let t = format!("T{i}");
     let mut o = Obs { types: vec![], literals: vec![] };
     match c.pos {
-        Pos::Assignment | Pos::Combo | Pos::Value | Pos::RefUnconstrained | Pos::RefWide | Pos::ParamInstance => {
+        Pos::Assignment | Pos::Combo | Pos::Value | Pos::RefUnconstrained | Pos::RefWide | Pos::ParamInstance | Pos::ValueRefBound => {
             let tok = payload_int(m, &t, 0).ok_or_else(|| format!("{t}: no integer payload"))?;
             o.types.push((format!("{t} payload"), tok.clone()));
             if c.pos == Pos::Value {
@@ -193,7 +206,7 @@ fn observe(m: &RModule, i: usize, c: &Case) -> Result<Obs, String> {
                 }
             }
         }
-        Pos::Component | Pos::Default | Pos::ComboComponent | Pos::ParamComponent => {
+        Pos::Component | Pos::Default | Pos::ComboComponent | Pos::ParamComponent | Pos::ValueRefComponent => {
             let s = m.find_struct(&t).ok_or_else(|| format!("{t} missing"))?;
             let f = s.fields.first().ok_or("no field")?;
             let ty = f.ty.trim_start_matches("Option<").trim_end_matches('>').to_string();
@@ -498,6 +511,8 @@ pub fn run(tier: Tier, seed: u64, replay: Option<String>) -> i32 {
                     }
                     if !ext && lo.is_some() && hi.is_some() {
                         cases.push(Case { pos: Pos::ParamInstance, ..base.clone() });
+                        cases.push(Case { pos: Pos::ValueRefBound, ..base.clone() });
+                        cases.push(Case { pos: Pos::ValueRefComponent, ..base.clone() });
                         cases.push(Case { pos: Pos::ParamComponent, ..base.clone() });
                     }
                     // values: lower, upper, midpoint (finite ones)
